@@ -1,7 +1,7 @@
 """C10 — link-layer envelopes are transparent: Nack, PIT token, wrapped packets (DESIGN §4 C10)."""
 import ast
 
-from .common import ctx, family, returns, calls_in_ctx, reach_from_succ, site, srcs_text, truthy_label, resolve_call, call_arg, bound_args, alias_text
+from .common import ctx, family, returns, calls_in_ctx, reach_from_succ, site, srcs_text, truthy_label, resolve_call, call_arg, bound_args, alias_text, explore
 from ..flow import callee_attr
 from ..loader import AnalysisError, norm, FuncT
 from ..models import models_of
@@ -105,7 +105,7 @@ def run(R):
     field_defs = []
     for s in rx.sources(nn, rvar):
         t = s.text()
-        if s.kind == 'expr' and ast.unparse(s.expr).endswith('.nack.nack_reason'):
+        if s.kind == 'expr' and alias_text(s.ctx, s.expr).endswith('.nack.nack_reason'):
             field_defs.append(s)
         elif s.kind == 'expr' and (ast.unparse(s.expr).endswith('NackReason.NONE') or (isinstance(s.expr, ast.Constant) and s.expr.value in (None, 0))):
             pass
@@ -129,6 +129,12 @@ def run(R):
         for s in field_defs:
             if not nullable_field_expr(P, M, s.expr):
                 continue
+            # `DEFAULT if x.reason is None else x.reason` (either way round): this alternative is only taken when the element is present
+            whole = s.node.ast.value if s.node.kind == 'stmt' and isinstance(s.node.ast, ast.Assign) else None
+            if isinstance(whole, ast.IfExp):
+                lab = truthy_label(whole.test, ast.unparse(s.expr))
+                if (lab is True and whole.body is s.expr) or (lab is False and whole.orelse is s.expr):
+                    continue
             others = [n for n in rx.cfg.nodes if n is not s.node and any(nm == var for nm, _ in rx.cfg.defs_of(n))]
             # from the nullable definition, can T be reached with the value still possibly None?
             removed = {e for e in nn_edges if e[0] != T.id}
@@ -313,18 +319,25 @@ def run(R):
             isinstance(v_, ast.Constant) and v_.value is True for v_ in [call_arg(P, p2, prs[0], 'ignore_critical')]):
         probs.append('unknown envelope headers are not ignored (ignore_critical=True)')
     for fld in ('frag_index', 'frag_count'):
-        ts = [t for t in p2.cfg.nodes if t.kind == 'test' and truthy_label(t.ast, f'ret.{fld}') is not None]
+        ts = [t for t in p2.cfg.nodes if t.kind == 'test' and truthy_label(t.ast, f'ret.{fld}') is not None] + \
+             [n for n in p2.cfg.nodes if n.kind == 'stmt' and isinstance(n.ast, ast.Assign) and truthy_label(n.ast.value, f'ret.{fld}') is not None]
         if not ts:
             probs.append(f'{fld} is not examined')
             continue
-        for t in ts:
-            if ast.unparse(t.ast) == f'ret.{fld}':
-                probs.append(f'{fld} tested by truthiness (index 0 would pass)')
-            lab = truthy_label(t.ast, f'ret.{fld}')
-            r = reach_from_succ(p2.cfg, t, lab, follow_exc=False)
-            rs = [n for n in p2.cfg.nodes if n.kind == 'raise' and n.id in r]
-            if p2.cfg.exit.id in r or not rs or any(P.exc_name(p2.f.mod, n.ast.exc) != 'ndn.encoding.tlv_model.DecodeError' for n in rs):
-                probs.append(f'an envelope with {fld} is not rejected with DecodeError')
+        if any(ast.unparse(t.ast) == f'ret.{fld}' for t in ts if t.kind == 'test'):
+            probs.append(f'{fld} tested by truthiness (index 0 would pass)')
+        # valuation "this header is present" (the other one unknown): followed path-sensitively, also through a boolean local
+
+        def present(e, fld=fld):
+            lab = truthy_label(e, f'ret.{fld}')
+            if lab is None or ast.unparse(e) == f'ret.{fld}':
+                return None
+            return lab
+        reach = explore(p2, present)
+        rs = [n for n in p2.cfg.nodes if n.kind == 'raise' and n.id in reach]
+        normal = [n for n in returns(p2) if n.id in reach] + ([p2.cfg.falloff] if p2.cfg.falloff.id in reach else [])
+        if normal or not rs or any(P.exc_name(p2.f.mod, n.ast.exc) != 'ndn.encoding.tlv_model.DecodeError' for n in rs):
+            probs.append(f'an envelope with {fld} is not rejected with DecodeError')
     if probs:
         R.fail('C10.GRD.1', inst, p2.qual, 'def parse_lp_packet_v2', '; '.join(probs), site(p2, p2.f.node))
     else:
